@@ -6,7 +6,7 @@ from .state import *
 from .spec import REG
 
 PURE_BUILTINS = {'len', 'range', 'min', 'max', 'abs', 'int', 'float', 'bool', 'tuple', 'isinstance', 'all', 'any',
-                 'old', 'implies', 'iff', 'ite', 'lam', 'mapset', 'sorted', 'sum', 'round', 'keyify', 'enumerate', 'zip',
+                 'old', 'implies', 'iff', 'ite', 'lam', 'mapset', 'key_at', 'sorted', 'sum', 'round', 'keyify', 'enumerate', 'zip',
                  'list', 'set', 'type', 'str'}
 
 
